@@ -31,6 +31,7 @@ def run(sc, keep_sim=False, hold=None):
     sim.faults = sc.get('faults', [])
     sim.tx_time = sc.get('tx_time', 0)
     sim.eager_wake = bool(sc.get('eager_wake'))
+    sim.reuse_buffers = bool(sc.get('reuse_buffers'))
     stacks = []
     res = Result()
     res.sc = sc
